@@ -36,7 +36,8 @@ OWN = {"C06": {"PrefixAlways", "CompleteAtClose", "ByteExact"},
        "C01": {"ClosedAfterCloseNotify", "CompleteAtClose"},
        "C07": {"PlainInOrder", "PlainComplete", "SegIndepTls"},
        "C08": {"PlainInOrder", "PlainComplete"},      # a valid request line reaches the inner protocol intact through the TLS layer
-       "C15": {"HsTimerWhileHandshaking", "HsTimeoutCloses", "ClosedAfterCloseNotify"},
+       # (PlainComplete: a request the TLS layer has received completely is handed on, so that no timeout fires on it)
+       "C15": {"HsTimerWhileHandshaking", "HsTimeoutCloses", "ClosedAfterCloseNotify", "PlainComplete"},
        "C20": {"InnerOnlyAfterHandshake", "NoPlainBeforeTls", "OnlyTlsOnWire"}}
 DEVS = {"C01": {},
         "C06": {"DevSingleSendCall": ["CompleteAtClose"]}, "C07": {"DevReadOnceAfterHandshake": ["PlainComplete"]},
